@@ -872,8 +872,10 @@ func (f *Frame) execInstr(ins ssa.Instruction, reach string, h *Heap) string {
 	case *ssa.Defer:
 		// a deferred call of a dependency that has no contract is, like a direct one, assumed to
 		// write no modelled memory; its result is unused. Anything else is outside the subset.
-		if cal := i.Call.StaticCallee(); cal != nil && !f.en.inRepo(cal) && f.en.cs.Funcs[funcKey(cal)] == nil && len(i.Call.Args) == 0 {
-			f.vc.assumed = append(f.vc.assumed, "deferred external call without contract, no memory effect assumed: "+funcKey(cal))
+		if cal := i.Call.StaticCallee(); cal != nil && !f.en.inRepo(cal) {
+			// a deferred call of a dependency (Close, Unlock, StopCPUProfile): it runs when the
+			// function returns; its effect on modelled memory is not modelled (listed)
+			f.vc.assumed = append(f.vc.assumed, "deferred call of a dependency, effect at function exit not modelled: "+funcKey(cal))
 		} else {
 			vc.errorf("%s: instruction %T outside the supported subset", f.fn.Name(), ins)
 		}
@@ -1020,6 +1022,50 @@ func (f *Frame) binop(i *ssa.BinOp, reach string, h *Heap) Val {
 			return bv(app(">", x.E, y.E))
 		case token.GEQ:
 			return bv(app(">=", x.E, y.E))
+		case token.OR, token.AND, token.SHL, token.SHR:
+			// bit operations with a small non-negative constant, over a non-negative operand:
+			// bit b of x is (x div 2^b) mod 2. Anything else is an uninterpreted value.
+			a, c := x, y
+			if _, err := strconv.ParseInt(c.E, 10, 64); err != nil && (i.Op == token.OR || i.Op == token.AND) {
+				a, c = y, x
+			}
+			if k, err := strconv.ParseInt(c.E, 10, 64); err == nil && k >= 0 && k < 1<<20 {
+				bit := func(b int) string { return goMod(goDiv(a.E, num(1<<uint(b))), "2") }
+				var terms []string
+				switch i.Op {
+				case token.OR:
+					terms = append(terms, a.E)
+					for b := 0; b < 20; b++ {
+						if k&(1<<uint(b)) != 0 {
+							terms = append(terms, ite(eq(bit(b), "0"), num(1<<uint(b)), "0"))
+						}
+					}
+				case token.AND:
+					terms = append(terms, "0")
+					for b := 0; b < 20; b++ {
+						if k&(1<<uint(b)) != 0 {
+							terms = append(terms, app("*", num(1<<uint(b)), bit(b)))
+						}
+					}
+				case token.SHL:
+					if k < 40 && a.E == x.E {
+						terms = append(terms, app("*", a.E, num(1<<uint(k))))
+					}
+				case token.SHR:
+					if k < 40 && a.E == x.E {
+						terms = append(terms, goDiv(a.E, num(1<<uint(k))))
+					}
+				}
+				if len(terms) > 0 {
+					exact := terms[0]
+					if len(terms) > 1 {
+						exact = app("+", terms...)
+					}
+					free := f.vc.fresh(f.prefix+"bitop", "Int")
+					return iv(ite(app(">=", a.E, "0"), exact, free))
+				}
+			}
+			return f.freshVal("bitop", t, h)
 		}
 	}
 	f.vc.errorf("%s: unsupported binop %v on %s", f.fn.Name(), i.Op, x.S)
